@@ -71,6 +71,17 @@ def body(ctx, conv, shape, holes, skew, via, mesh_opts=None, history=False):
     snap = snapshot(ds)
     polygons = cv.polygons           # concrete geometry: real shapely
     N = len(polygons)
+    if conv == 'cf1d' and min(shape) >= 2:
+        # "a cell polygon contains the point" is about the cells the dataset describes: for derived 1-D bounds those
+        # are the midpoint rectangles (written here from the CF text, not taken from the code under test)
+        def edges(v):
+            v = [float(x) for x in v]
+            mids = [(a + b) / 2 for a, b in zip(v, v[1:])]
+            return [v[0] - (v[1] - v[0]) / 2] + mids + [v[-1] + (v[-1] - v[-2]) / 2]
+        ye, xe = edges(ds['lat'].values), edges(ds['lon'].values)
+        ny, nx = shape
+        ctx.check(all(polygons[j * nx + i].equals(shapely.box(xe[i], ye[j], xe[i + 1], ye[j + 1])) for j in range(ny) for i in range(nx)),
+                  'the cells searched are the midpoint rectangles of the 1-D axes')
     xs = [c[0] for p in polygons if p is not None for c in p.exterior.coords]
     ys = [c[1] for p in polygons if p is not None for c in p.exterior.coords]
     cx, cy = (min(xs) + max(xs)) / 2, (min(ys) + max(ys)) / 2
